@@ -224,6 +224,28 @@ def check_payload(prog, rep, family, rctx, rname, pfield):
     rep.ok("C05.payload", f"{family}: {where} assigns {pfield} from the input with typecode {sorted(tcs)}")
 
 
+def loaded_capacity_problem(p, obj, wctx, wfmt):
+    """None when the capacity a cuckoo loader leaves is (len(input) - footer bytes) // bytes per slot // bucket_size, else (key, message)"""
+    from ..expr import mapx
+    cap = p.fields.get((obj, "_cuckoo_capacity"))
+    if cap is None or not any(n[0] == "call" and n[1] == ("g", "len") and direct_input(n[2][0], LABELS) for n in walk(cap)):
+        return (f"capacity = {nshow(cap) if cap else 'unassigned'}", "the loaded capacity is not derived from the input length")
+    F_ = C(_struct.calcsize(wfmt))
+    S_ = C(4 if wctx == "CuckooFilter" else 8)
+    B_ = p.fields.get((obj, "_bucket_size"))
+    if B_ is not None:
+        capx = mapx(strip_epochs(cap), lambda n_: ("p", "<bucket_size>") if n_ == strip_epochs(B_) else None)
+        lens = [n for n in walk(capx) if n[0] == "call" and n[1] == ("g", "len")]
+        L_ = lens[0] if lens else C(None)
+        cap, B_ = capx, ("p", "<bucket_size>")
+        body = ("bin", "-", L_, F_)
+        alts = [("bin", "//", ("bin", "//", body, S_), B_), ("bin", "//", ("bin", "//", body, B_), S_), ("bin", "//", body, ("bin", "*", S_, B_))]
+        if canon(cap) not in [canon(a) for a in alts]:
+            return (f"capacity = {nshow(cap)}", f"the loaded capacity is {nshow(cap)}; the writer emits capacity x bucket_size slots of {S_[1]} bytes followed by a "
+                    f"{F_[1]}-byte footer, so capacity must be (len - {F_[1]}) // {S_[1]} // bucket_size (the footer must not be counted as slots)")
+    return None
+
+
 def resupplied_rule(prog, rep, rid, only):
     """parameters the format does not store are honoured when re-supplied to an alternate constructor / the constructor"""
     HASHF = {"BloomFilter": "_hash_func", "CountingBloomFilter": "_hash_func", "BloomFilterOnDisk": "_hash_func", "ExpandingBloomFilter": "_ExpandingBloomFilter__hash_func",
@@ -507,26 +529,9 @@ def check(prog, rep, tier):
             restored = False
             for p in ps:
                 obj = loaded_obj(f, p)
-                cap = p.fields.get((obj, "_cuckoo_capacity"))
-                if cap is None or not any(n[0] == "call" and n[1] == ("g", "len") and direct_input(n[2][0], LABELS) for n in walk(cap)):
-                    bad = (f"capacity = {nshow(cap) if cap else 'unassigned'}", "the loaded capacity is not derived from the input length")
+                bad = loaded_capacity_problem(p, obj, wctx, wfmt)
+                if bad:
                     break
-                # capacity = (len(input) - footer bytes) // bytes per slot // bucket_size
-                from ..expr import mapx
-                F_ = C(_struct.calcsize(wfmt))
-                S_ = C(4 if wctx == "CuckooFilter" else 8)
-                B_ = p.fields.get((obj, "_bucket_size"))
-                if B_ is not None:
-                    capx = mapx(strip_epochs(cap), lambda n_: ("BUCKET",) if n_ == strip_epochs(B_) else None)
-                    lens = [n for n in walk(capx) if n[0] == "call" and n[1] == ("g", "len")]
-                    L_ = lens[0] if lens else C(None)
-                    cap, B_ = capx, ("BUCKET",)
-                    body = ("bin", "-", L_, F_)
-                    alts = [("bin", "//", ("bin", "//", body, S_), B_), ("bin", "//", ("bin", "//", body, B_), S_), ("bin", "//", body, ("bin", "*", S_, B_))]
-                    if canon(cap) not in [canon(a) for a in alts]:
-                        bad = (f"capacity = {nshow(cap)}", f"the loaded capacity is {nshow(cap)}; the writer emits capacity x bucket_size slots of {S_[1]} bytes followed by a "
-                               f"{F_[1]}-byte footer, so capacity must be (len - {F_[1]}) // {S_[1]} // bucket_size (the footer must not be counted as slots)")
-                        break
                 _CUR["p"] = p
                 bk = p.fields.get((obj, "_buckets"))
                 apps = [e for e in p.events if e.kind == "call" and e.target is None and e.name == "append" and e.recv is not None
